@@ -178,6 +178,16 @@ def upd(old):
     return None if old == 1 else 1
 
 
+def upd_id(old):
+    """The other function given to `update` (actions ("update", k, "id")): returns what it got, so that for an absent key the
+    new value IS the (nil) old one while the collection must still gain the key."""
+    return old
+
+
+def upd_of(a):
+    return upd_id if len(a) > 2 else upd
+
+
 KINDS = ("vector", "map", "set", "list", "queue")
 INITS = {
     "vector": ("0", "1", "32", "33", "1056", "1057"),
@@ -259,7 +269,7 @@ CORE = {
     ],
     "map": [
         ("assoc", "k0", 1), ("assoc", "k1", None), ("assoc", "a", 0), ("dissoc", "k0"), ("dissoc", "k1"), ("conj", "e", "k1", 0),
-        ("update", "k0"), ("merge", "c"), ("empty",), ("with-meta", "m1"), ("vary-meta",),
+        ("update", "k0"), ("update", "a", "id"), ("merge", "c"), ("empty",), ("with-meta", "m1"), ("vary-meta",),
         ("t", (("assoc!", "k1", 1),), ("assoc!", "k0", 0)), ("t", (("dissoc!", "k0"),), None), ("t", (("conj!", "a", None),), ("assoc!", "k0", 0)),
     ],
     "set": [
@@ -298,7 +308,7 @@ def wide_fixed(kind, tlen):
         a += [("assoc", k, v) for k in ("k0", "k1", "a") for v in (0, 1, None)]
         a += [("dissoc", k) for k in ("k0", "k1", "a")]
         a += [("conj", "e", k, 0) for k in ("k0", "k1", "a")] + [("conj", "m"), ("conj", "nil")]
-        a += [("update", k) for k in ("k0", "k1", "a")] + [("merge", "c")]
+        a += [("update", k) for k in ("k0", "k1", "a")] + [("update", k, "id") for k in ("k0", "a")] + [("merge", "c")]
     if kind == "set":
         a += [("conj", k) for k in ("k0", "k1", "a")] + [("disj", k) for k in ("k0", "k1", "a")]
     a += [("empty",), ("with-meta", "m1"), ("with-meta", "nil"), ("vary-meta",), ("into", "c")]
@@ -332,6 +342,7 @@ def actions_for(kind, entry, pool, alphabet, tlen=3):
         for p in positions(n):
             out += [("assoc", p, x) for x in (0, 1, None)]
             out.append(("update", p))
+            out.append(("update", p, "id"))
     for j, e in enumerate(pool):
         if len(e[1]) <= BIG:
             out.append(("into", "@", j))
@@ -382,7 +393,7 @@ def model_op(kind, a, model, pool):
         if op == "update":
             i = pos_index(a[1], len(model))
             old = model[i] if i < len(model) else None
-            return model[:i] + (upd(old),) + model[i + 1 :]
+            return model[:i] + (upd_of(a)(old),) + model[i + 1 :]
     if kind == "set":
         if op == "conj":
             return model | {K[a[1]]}
@@ -400,7 +411,7 @@ def model_op(kind, a, model, pool):
             elif a[1] == "m":
                 m.update({K["k1"]: 1, 100: 5})
         elif op == "update":
-            m[K[a[1]]] = upd(m.get(K[a[1]]))
+            m[K[a[1]]] = upd_of(a)(m.get(K[a[1]]))
         elif op == "merge":
             m.update({K["k1"]: 1, 100: 5} if a[1] == "c" else pool[a[2]][1])
         else:
@@ -526,7 +537,7 @@ def impl_action(kind, a, val, model, pool, notes):
         if op == "assoc":
             return U.assoc(val, pos_index(a[1], len(model)), a[2])
         if op == "update":
-            return U.update(val, pos_index(a[1], len(model)), upd)
+            return U.update(val, pos_index(a[1], len(model)), upd_of(a))
     if kind == "set":
         return U.conj(val, K[a[1]]) if op == "conj" else U.disj(val, K[a[1]])
     if kind == "map":
@@ -539,7 +550,7 @@ def impl_action(kind, a, val, model, pool, notes):
                 return U.conj(val, U.vec.v(K[a[2]], a[3]))
             return U.conj(val, U.CONST_MAP if a[1] == "m" else None)
         if op == "update":
-            return U.update(val, K[a[1]], upd)
+            return U.update(val, K[a[1]], upd_of(a))
         if op == "merge":
             return U.merge(val, U.CONST_MAP if a[1] == "c" else pool[a[2]][0])
     raise KeyError((kind, a))
